@@ -6,11 +6,13 @@ use serde_json::{json, Value};
 use std::io::{self, BufRead, Write};
 
 mod c03;
+mod c04;
 mod c07;
 mod c08;
 mod c10;
 mod c11;
 mod c12;
+mod c15;
 mod c17;
 mod fmt;
 mod pool;
@@ -24,11 +26,13 @@ fn main() {
     let sub = args[1].as_str();
     let f: fn(&Value) -> Value = match sub {
         "c03" => c03::run,
+        "c04" => c04::run,
         "c07" => c07::run,
         "c08" => c08::run,
         "c10" => c10::run,
         "c11" => c11::run,
         "c12" => c12::run,
+        "c15" => c15::run,
         "fmt" => fmt::run,
         "pool" => pool::run,
         "lex" => pool::run_lex,
